@@ -378,6 +378,49 @@ func C19(ctx *core.Ctx) {
 			}
 		})
 	}
+	// the clock value may be rendered only where the user did not ask for undated output
+	for _, fn := range cone {
+		if fn.Pkg == globalsPkg {
+			continue
+		}
+		for _, c := range ssax.Calls(fn) {
+			if c.Static == nil || c.Static.Signature.Recv() == nil || !ssax.TypeNamed(c.Static.Signature.Recv().Type(), "time", "Time") {
+				continue
+			}
+			switch c.Static.Name() {
+			case "Format", "String", "Unix", "UnixNano", "Year", "YearDay", "Date", "Clock", "AppendFormat", "MarshalText", "MarshalJSON":
+			default:
+				continue
+			}
+			in := c.Instr.(ssa.Instruction)
+			guarded := false
+			for b := in.Block(); b != nil && b.Idom() != nil; b = b.Idom() {
+				d := b.Idom()
+				iff, isIf := d.Instrs[len(d.Instrs)-1].(*ssa.If)
+				if !isIf || len(b.Preds) != 1 || b.Preds[0] != d {
+					continue
+				}
+				bo, isB := iff.Cond.(*ssa.BinOp)
+				if !isB {
+					continue
+				}
+				undated := false
+				for _, side := range []ssa.Value{bo.X, bo.Y} {
+					if k, isK := ConstString(side); isK && k == "undated" {
+						undated = true
+					}
+				}
+				if undated && ((bo.Op == token.NEQ && d.Succs[0] == b) || (bo.Op == token.EQL && d.Succs[1] == b)) {
+					guarded = true
+				}
+			}
+			if !guarded {
+				nsrc++
+			}
+			ctx.Check(guarded, "C19.R2", QName(fn)+" › the clock is rendered only when dated output was asked for ("+c.Static.Name()+")", cc.IPos(in), "under the edge option != \"undated\"",
+				"the compile-time clock is formatted into the output without the `undated` test: with generated_annotations=undated (or no such option) the emitted text still carries the date of the run, so two compilations on different days differ")
+		}
+	}
 	if nsrc == 0 {
 		ctx.Discharge("C19.R2", "cone(compiler.Compile) › no nondeterminism source", cc.FPos(entry), sprintf("%d functions scanned", len(cone)))
 	}
@@ -404,31 +447,7 @@ func C19(ctx *core.Ctx) {
 	c19Taint(ctx, cc, cone, res)
 
 	ctx.Rule("C19.R6", "output does not depend on what the output directory held before: a file opened with O_CREATE for writing is opened with O_TRUNC", 1)
-	{
-		n := 0
-		for _, fn := range cone {
-			for _, c := range ssax.Calls(fn) {
-				if c.FullName() != "os.OpenFile" {
-					continue
-				}
-				flags, isK := ssax.ConstInt(c.Args()[1])
-				if !isK {
-					ctx.Undecided("C19.R6", QName(fn)+" › os.OpenFile flags", cc.IPos(c.Instr), "flags are not a constant")
-					continue
-				}
-				const oWRONLY, oRDWR, oAPPEND, oCREATE, oTRUNC = 0x1, 0x2, 0x400, 0x40, 0x200
-				if flags&oCREATE == 0 || flags&(oWRONLY|oRDWR) == 0 {
-					continue // opens a file this run has created (os.Create truncates)
-				}
-				n++
-				ctx.Check(flags&oTRUNC != 0 || flags&oAPPEND != 0, "C19.R6", QName(fn)+sprintf(" › output file #%d is truncated when it already exists", n), cc.IPos(c.Instr), "O_CREATE|O_TRUNC",
-					"an existing output file is overwritten in place without being truncated: when the new content is shorter, the tail of whatever an earlier run (or another program) left in the output directory stays in the file")
-			}
-		}
-		if n == 0 {
-			ctx.Discharge("C19.R6", "cone(compiler.Compile) › no create-without-truncate", cc.FPos(entry), "no os.OpenFile with O_CREATE for writing (os.Create truncates)")
-		}
-	}
+	truncateOnCreate(ctx, cc, cone, entry, "C19.R6")
 	// ---- R7: nothing is decided by what the output directory already holds -----------
 	ctx.Rule("C19.R7", "generators never test whether an output file or directory already exists (os.Stat/Lstat, os.IsExist/IsNotExist, O_EXCL): the emitted text does not depend on what an earlier run left behind", 1)
 	{
@@ -871,4 +890,35 @@ func usedBySort(fn *ssa.Function) bool {
 		}
 	})
 	return found
+}
+
+// truncateOnCreate: every os.OpenFile of the compile cone that creates a file
+// for writing truncates it (C19.R6; also C11.R18 — a shorter output written
+// over a longer file of an earlier run is not well-formed).
+func truncateOnCreate(ctx *core.Ctx, cc *CC, cone []*ssa.Function, entry *ssa.Function, rule string) {
+	{
+		n := 0
+		for _, fn := range cone {
+			for _, c := range ssax.Calls(fn) {
+				if c.FullName() != "os.OpenFile" {
+					continue
+				}
+				flags, isK := ssax.ConstInt(c.Args()[1])
+				if !isK {
+					ctx.Undecided(rule, QName(fn)+" › os.OpenFile flags", cc.IPos(c.Instr), "flags are not a constant")
+					continue
+				}
+				const oWRONLY, oRDWR, oAPPEND, oCREATE, oTRUNC = 0x1, 0x2, 0x400, 0x40, 0x200
+				if flags&oCREATE == 0 || flags&(oWRONLY|oRDWR) == 0 {
+					continue // opens a file this run has created (os.Create truncates)
+				}
+				n++
+				ctx.Check(flags&oTRUNC != 0 || flags&oAPPEND != 0, rule, QName(fn)+sprintf(" › output file #%d is truncated when it already exists", n), cc.IPos(c.Instr), "O_CREATE|O_TRUNC",
+					"an existing output file is overwritten in place without being truncated: when the new content is shorter, the tail of whatever an earlier run (or another program) left in the output directory stays in the file")
+			}
+		}
+		if n == 0 {
+			ctx.Discharge(rule, "cone(compiler.Compile) › no create-without-truncate", cc.FPos(entry), "no os.OpenFile with O_CREATE for writing (os.Create truncates)")
+		}
+	}
 }
